@@ -186,6 +186,40 @@ func loadProgramRaw(repo string, cfg BuildConfig) (*Prog, error) {
 			}
 		}
 	}
+	// calls through a func-typed parameter: G(..., build) where G, or a closure of G, calls `build(...)`. Each static
+	// call site of G that passes a module function or closure makes the call inside G a call site of that function
+	// (template-method helpers: the locked step shared by several commands with the per-command part handed in).
+	for _, g := range p.Fns {
+		if g.Blocks == nil || !p.InModule(g) {
+			continue
+		}
+		for idx, prm := range g.Params {
+			if _, ok := prm.Type().Underlying().(*types.Signature); !ok {
+				continue
+			}
+			sites := dynCallsOfParam(g, prm)
+			if len(sites) == 0 {
+				continue
+			}
+			for _, cs := range p.callers[g] {
+				args := cs.Call.Common().Args
+				if idx >= len(args) || cs.Call.Common().StaticCallee() != g {
+					continue
+				}
+				var target *ssa.Function
+				switch a := args[idx].(type) {
+				case *ssa.MakeClosure:
+					target, _ = a.Fn.(*ssa.Function)
+				case *ssa.Function:
+					target = a
+				}
+				if target == nil || !p.InModule(target) || target.Blocks == nil {
+					continue
+				}
+				p.callers[target] = append(p.callers[target], sites...)
+			}
+		}
+	}
 	// thin forwarding wrappers
 	p.implOf = map[*ssa.Function]*ssa.Function{}
 	for _, f := range p.Fns {
@@ -937,4 +971,84 @@ func calleeOf(cc *ssa.CallCommon) *ssa.Function {
 		}
 	}
 	return f
+}
+
+// dynCallsOfParam: the calls, in g and in the closures g creates, whose callee value is g's func-typed parameter prm
+// (directly, or through the cell the parameter was spilled into for capture - written exactly once).
+func dynCallsOfParam(g *ssa.Function, prm *ssa.Parameter) []callSite {
+	var out []callSite
+	var cell *ssa.Alloc
+	if refs := prm.Referrers(); refs != nil {
+		for _, r := range *refs {
+			if st, ok := r.(*ssa.Store); ok && st.Val == ssa.Value(prm) {
+				if al, ok := st.Addr.(*ssa.Alloc); ok {
+					n := 0
+					for _, u := range *al.Referrers() {
+						if s2, ok := u.(*ssa.Store); ok && s2.Addr == ssa.Value(al) {
+							n++
+						}
+					}
+					if n == 1 {
+						cell = al
+					}
+				}
+			}
+		}
+	}
+	isPrm := func(f *ssa.Function, v ssa.Value, holder map[*ssa.FreeVar]bool) bool {
+		if v == ssa.Value(prm) {
+			return true
+		}
+		if u, ok := v.(*ssa.UnOp); ok && u.Op == token.MUL {
+			if cell != nil && u.X == ssa.Value(cell) {
+				return true
+			}
+			if fv, ok := u.X.(*ssa.FreeVar); ok && holder[fv] {
+				return true
+			}
+		}
+		if fv, ok := v.(*ssa.FreeVar); ok && holder[fv] {
+			return true
+		}
+		return false
+	}
+	var scan func(f *ssa.Function, holder map[*ssa.FreeVar]bool, d int)
+	scan = func(f *ssa.Function, holder map[*ssa.FreeVar]bool, d int) {
+		if d > 3 {
+			return
+		}
+		for _, b := range f.Blocks {
+			for _, in := range b.Instrs {
+				switch x := in.(type) {
+				case ssa.CallInstruction:
+					cc := x.Common()
+					if cc.Method == nil && cc.StaticCallee() == nil && isPrm(f, cc.Value, holder) {
+						out = append(out, callSite{f, x})
+					}
+				}
+				if mc, ok := in.(*ssa.MakeClosure); ok {
+					cf, _ := mc.Fn.(*ssa.Function)
+					if cf == nil {
+						continue
+					}
+					h := map[*ssa.FreeVar]bool{}
+					for j, bnd := range mc.Bindings {
+						if j >= len(cf.FreeVars) {
+							break
+						}
+						if bnd == ssa.Value(prm) || cell != nil && bnd == ssa.Value(cell) {
+							h[cf.FreeVars[j]] = true
+						} else if fv, ok := bnd.(*ssa.FreeVar); ok && holder[fv] {
+							h[cf.FreeVars[j]] = true
+						}
+					}
+					if len(h) > 0 {
+						scan(cf, h, d+1)
+					}
+				}
+			}
+		}
+	}
+	scan(g, nil, 0)
+	return out
 }
